@@ -10,6 +10,7 @@ LEAN = os.path.join(VERIF, "lean")
 HARNESS = os.path.join(VERIF, "harness")
 REPO = os.environ.get("VERIF_REPO", "/repo")
 EVID = os.path.join(VERIF, "evidence")
+RUNDIR = os.path.join(VERIF, "run")  # raw harness summaries (not evidence files: evidence/ holds only <id>.json)
 REPLAYS = os.path.join(VERIF, "replays")
 JPH = os.path.join(HARNESS, "bin", "jph")
 SPEC_EXE = os.path.join(LEAN, ".lake", "build", "bin", "jpv-spec")
@@ -308,7 +309,8 @@ def match_known(prop, finding, known):
 
 
 def run_jph(prop, tier, seed, cfg, n=None, extra_args=None):
-    out = os.path.join(EVID, "%s.t3.json" % prop)
+    os.makedirs(RUNDIR, exist_ok=True)
+    out = os.path.join(RUNDIR, "%s.t3.json" % prop)
     if os.path.exists(out):
         os.remove(out)
     cmd = [JPH, "run", "-prop", prop, "-seed", str(seed), "-tier", tier, "-spec", SPEC_EXE, "-impl", IMPL_EXE, "-peg", PEG_EXE, "-peggo", PEGGO_EXE,
@@ -326,7 +328,8 @@ def run_jph(prop, tier, seed, cfg, n=None, extra_args=None):
 def run_race(prop, tier, seed, cfg):
     """C06 (and goroutine variants): the same runner under the Go race detector (needs CGO + gcc; works offline here)."""
     script = os.path.join(VERIF, cfg["race_script"])
-    out = os.path.join(EVID, "%s.race.t3.json" % prop)
+    os.makedirs(RUNDIR, exist_ok=True)
+    out = os.path.join(RUNDIR, "%s.race.t3.json" % prop)
     if os.path.exists(out):
         os.remove(out)
     n = str(cfg.get("race_n_quick", 500)) if tier == "quick" else str(cfg.get("race_n_thorough", 0))
@@ -511,7 +514,8 @@ def do_replay(prop, cfg, path):
         print(gerr)
         return 2
     seed, idx, tier = body.get("seed", 1), body.get("case_index", 0), body.get("tier", "quick")
-    out = os.path.join(EVID, "%s.replay.tmp" % prop)
+    os.makedirs(RUNDIR, exist_ok=True)
+    out = os.path.join(RUNDIR, "%s.replay.tmp" % prop)
     cmd = [JPH, "run", "-prop", prop, "-seed", str(seed), "-tier", tier, "-spec", SPEC_EXE, "-impl", IMPL_EXE, "-peg", PEG_EXE, "-peggo", PEGGO_EXE,
            "-replays", REPLAYS, "-out", out, "-from", str(idx), "-n", str(idx + 1), "-workers", "1"]
     rc, txt, _ = run(cmd, cwd=VERIF, env=GOENV, timeout=600)
